@@ -201,9 +201,11 @@ func allJobs() []job {
 		if fl.d <= fl.min {
 			continue
 		}
-		ul := 3
+		ul := 3 // work units = prefixes of this length, dealt round-robin to the workers
 		if fl.d < 4 {
 			ul = 1
+		} else if fl.d >= 7 {
+			ul = 4
 		}
 		for _, u := range genUnits(fl.tv2, ul, fl.mask) {
 			jobs = append(jobs, job{fl.tv2, fl.d, fl.mask, fl.min, u})
